@@ -648,6 +648,32 @@ pub fn run_c03(ctx: &Ctx) -> i32 {
                 Err(e) => report_obs_err(ctx, "variants", idx, &case, &ObsErr::Enc(e), out),
             }
         }
+        // and by a packet-oriented source whose over-long offers are refused and retried
+        for mt in [false, true] {
+            case.cfg.multithread = mt;
+            case.mode = if (idx / 2) % 2 == 0 { FillMode::Int } else { FillMode::Bytes };
+            case.hint = idx % 3 == 0;
+            let Ok(v) = enc::verified(&case.cfg) else { continue };
+            let mut src = TestSource::new(Arc::clone(&case.audio), case.mode, case.hint);
+            src.overoffer_every = 2 + (idx % 2) as usize;
+            match enc::encode_stream(&v, &mut src, case.block) {
+                Ok(stream) => match enc::to_bytes(&stream) {
+                    Ok(bytes) => {
+                        let rep = refdec::decode_stream(&bytes);
+                        let obs = Observed { stream, bytes, rep, delivered: src.delivered, reads: src.reads };
+                        out.evaluations += 1;
+                        out.add("variants_overlong_offers_refused", src.overoffers_refused as u64);
+                        out.add("variants_overlong_offers_accepted", src.overoffers_accepted as u64);
+                        oracle_c03(ctx, "variants", idx, &case, &obs, out);
+                        if src.overoffers_accepted == 0 {
+                            infos.push((obs.rep.info.md5, obs.rep.info.total, mt, case.mode));
+                        }
+                    }
+                    Err(e) => report_obs_err(ctx, "variants", idx, &case, &ObsErr::Ser(e, stream_placeholder()), out),
+                },
+                Err(e) => report_obs_err(ctx, "variants", idx, &case, &ObsErr::Enc(e), out),
+            }
+        }
         if infos.windows(2).any(|w| w[0].0 != w[1].0 || w[0].1 != w[1].1) {
             out.violation("C03|variants-differ", format!("MD5/total differ between delivery variants: {infos:?}"), json!({"monitor": "C03", "sub": "variants", "index": idx, "seed": ctx.seed, "tier": ctx.tier.name(), "case": case.describe()}));
         }
